@@ -793,6 +793,11 @@ def jobs(tier):
                 out.append({'harness': 'overlap', 'fn': h_overlap,
                             'params': {'state': s, 'direction': d, 'op_a': a, 'n': 2, 'start_time': 'set' if q else 'both'},
                             'requires': req})
+                if q and a in ('abort', 'pause') and s in ('QUEUED', 'INITIALIZING', 'DOWNLOADING', 'UPLOADING'):
+                    # three overlapping requests behind a slow first one (quick tier: slow first requests only)
+                    out.append({'harness': 'overlap', 'fn': h_overlap,
+                                'params': {'state': s, 'direction': d, 'op_a': a, 'n': 3, 'ops': RAW_OPS, 'coarse': True},
+                                'requires': req})
                 if not q:
                     out.append({'harness': 'overlap', 'fn': h_overlap,
                                 'params': {'state': s, 'direction': d, 'op_a': a, 'n': 2, 'slow': False, 'start_time': 'both'},
